@@ -44,7 +44,7 @@ CLAIMED = {
          "len() of the very bytes that follow, non-synchronising, CRLF-separated, utf-8; W5 each public operation sends exactly its RFC 5804 verb as "
          "a constant, at most once per path, names as utf-8 bytes, sizes as int, raw channels carry constants/base64 only; W6 CR, LF and NUL are "
          "excluded before the quoting branch. Necessary conditions for every argument value; decoding by a real server is not decided.",
-    technique="effect ownership + AST template matching of the formatter/literal builder + CFG edge-fact guards + finite-domain path enumeration",
+    technique="effect ownership + CFG edge-fact guards + finite-domain interpretation of the sender (every flag setting) and of the literal builder over sample values vs the wire format + AST template matching as fallback",
     ref="4/C08"),
  "C15": dict(
     text="Thin: only request/reply alternation is decided. K1 the sender performs its writes and then exactly one reply read on every normal path, "
@@ -61,7 +61,7 @@ CLAIMED = {
          "parameters old/new, unmodified and in their roles, reach server operations; R5 a None listing is tested before unpacking; R6 finite-domain "
          "enumeration of all step outcomes: True iff the delete succeeded, other exits False/Error, no step out of order; R7 native RENAMESCRIPT "
          "(old,new) iff the capability is announced. Substantially decides the client side; content equality and server atomicity are not decided.",
-    technique="CFG dominance with edge facts on call outcomes + def-use of the content/name arguments + finite-domain path enumeration",
+    technique="finite-domain interpretation of the emulated rename over listings x server answers + CFG dominance with edge facts on call outcomes + def-use of the content/name arguments",
     ref="4/C14"),
  "C16": dict(
     text="U1 the supported list evaluates to [DIGEST-MD5, PLAIN, LOGIN, OAUTHBEARER]; U2 the dispatcher's constructed method exists for each entry; "
@@ -70,7 +70,7 @@ CLAIMED = {
          "no send, False; flag iff success); U4 symbolic byte templates of the PLAIN / LOGIN / OAUTHBEARER payloads over the parameters equal the "
          "RFC 4616 / LOGIN / RFC 7628 formats and credentials are plumbed as utf-8 in the right positions; U5 the gs2 authzid passes the saslname "
          "escaper; U6 no Python-2 remnants below the mechanisms (DIGEST-MD5: recorded known findings). RFC 2831 arithmetic is not decided.",
-    technique="finite-domain path enumeration of the selection logic + symbolic byte-template evaluation of payload builders + name-resolution lint",
+    technique="finite-domain path enumeration of the selection logic (incl. candidates computed by the caller) + symbolic byte-template evaluation of payload builders + finite-domain interpretation of the sender + name-resolution lint",
     ref="4/C16"),
  "C17": dict(
     text="D1 local def-use from the reply content (third element of the sender's result) in every function that receives it: it never reaches the "
@@ -79,7 +79,7 @@ CLAIMED = {
          "text in the assembler (violated today: recorded known finding, with witness); D4 getscript returns the newline-join of all decoded lines with "
          "no filter, slice, strip or content-dependent branch; D5 ACTIVE is looked up only in the group after the name. Necessary conditions; equality "
          "with a server's store is not decided.",
-    technique="local taint (def-use) from reply content to regex sinks + regex language inclusion (DFA) + AST shape of the decoders",
+    technique="local taint (def-use) from reply content to regex sinks + regex language inclusion (DFA) + finite-domain interpretation of listscripts over sample listings vs an RFC 5804 reference reading + AST shape of the decoders",
     ref="4/C17"),
  "C02": dict(
     text="Termination as a progress argument, exception-freedom as an escape analysis against the single try/except funnel of Parser.parse: X1 "
@@ -100,7 +100,7 @@ CLAIMED = {
          "extension found missing; E5 no call from parser.py disables a check; E6 the registry is written only by the parser reset (emptied) and "
          "RequireCommand.complete_cb, invoked only on ';'; E7 message text. Holds for every script because it holds on every path; 'first missing in "
          "script order' is not separately proved.",
-    technique="constant evaluation of the command tables vs a reference + CFG dominance with edge facts on the three gates + ownership of the registry",
+    technique="constant evaluation of the command tables vs a reference + CFG dominance with edge facts on the three gates + finite-domain interpretation of the value gate over 144 cases + ownership of the registry",
     ref="4/C07"),
  "C13": dict(
     text="Effect analysis: H1 inventory of every module-level/class-level mutable object of the package (35+) and of every statement that can write "
@@ -118,7 +118,7 @@ CLAIMED = {
          "equivalent slice / bounded-call forms; Z3 the handler builds error_pos from exactly those calls and len() of the loop's current token value "
          "and the text from the same line; Z4 the generator is iterated directly (lazy), so no position depends on later input; Z5 the only foreign "
          "position write is the width-bounded replay (rule X2). Necessary conditions; positions of late-detected errors are not decided.",
-    technique="CFG path query on the lexer loop + AST template matching of the position formulas and handler assembly",
+    technique="finite-domain interpretation of Lexer.__init__/scan (generator steps, emulated replay, reused lexer) and of parse()'s handler over sample texts vs the reference line/column/length (AST interpretation, no execution) + CFG dominance for the token holder; syntactic formula / path rules as fallback",
     ref="4/C18"),
  "C01": dict(
     text="Necessary conditions of 'accepts exactly the valid scripts', each decided for all inputs because it is decided on the code: L1/L2 every "
@@ -148,7 +148,7 @@ CLAIMED = {
          "serializer writes is tokenised by the automata of the CURRENT lexer rules into the punctuation it stands for, and every punctuation kind "
          "is produced by some fragment; S4 a text: block is unconditionally followed by a newline; S5 same args_definition, every present slot, "
          "every child, separators only between consecutive tests. Tree equality after re-parse and idempotence for all values are NOT decided.",
-    technique="AST/CFG shape analysis of the serializer + def-use of values to write sinks + static tokenisation of emitted constants with the lexer DFAs",
+    technique="finite-domain interpretation of tosieve per slot form x value shape + AST/CFG shape analysis of the serializer + def-use of values to write sinks + static tokenisation of emitted constants with the lexer DFAs",
     ref="4/C04"),
  "C20": dict(
     text="Thin: Y1 add_commands writes the namespace the lookup reads, under the class's __name__ with the suffix the lookup appends, and the lookup "
@@ -156,7 +156,7 @@ CLAIMED = {
          "keys are listed as notices); Y3 the generic interpreter disciplines (G2 pending parameter, G4 stores under slot tests, G5 failed match / "
          "unaccepted argument refused, G6 case-insensitive tags, G7 no positional refill) and table well-formedness (T2, T5) are stated on the "
          "interpreter itself and therefore hold for any registered definition. The accepted language per definition is NOT decided.",
-    technique="namespace/key agreement between writer and reader (AST) + documented-key usage analysis + shared CFG dominance rules of the interpreter",
+    technique="namespace/key agreement between writer and reader (AST) + documented-key usage analysis + who-may-write on definition keys at registration + shared CFG dominance rules of the interpreter",
     ref="4/C20"),
  "C12": dict(
     text="O1 every insertion into `filters` and every write of an entry's name in the seven editing operations is dominated by the existence test "
@@ -165,7 +165,7 @@ CLAIMED = {
          "len-1, the index variable counting iterations; O4 every mutation is dominated by the name-match edge and unknown names end in a falsy "
          "return; O5 enabled=False only together with wrapping and True only with unwrapping, both under the shared recogniser's state guard "
          "(sibling cross-check), getters derive from the same flag/recogniser. Equivalence with a list model over all histories is NOT decided.",
-    technique="CFG dominance with edge facts on the seven operations + AST affine check of the move indices + sibling cross-check enable/disable",
+    technique="finite-domain interpretation of the seven operations over a three-filter set vs an ordered-unique-list model + CFG dominance with edge facts + AST affine check of the move indices + sibling cross-check enable/disable",
     ref="4/C12"),
  "C11": dict(
     text="Thin: N1 the renderer and the loader use the same marker attribute for names and the same one for descriptions (writer format "
@@ -174,7 +174,7 @@ CLAIMED = {
          "hash_comment tokens only, attached to top-level commands only, the collector emptied right after and in the reset; N4 loader appends in "
          "result order and requires capabilities in string and list form, renderer writes require first then filters in order. Set equality after "
          "a reload over all reachable states is NOT decided.",
-    technique="writer/reader agreement on AST templates + CFG guards on the comment plumbing",
+    technique="finite-domain interpretation of the loader and the renderer over small sets (default and custom markers) vs a reference + writer/reader agreement on AST templates + CFG guards on the comment plumbing",
     ref="4/C11"),
  "C06": dict(
     text="F1 the renderer writes the require command (built from the whole `requires` list) before the first filter and `requires` is append-only; "
@@ -192,7 +192,7 @@ CLAIMED = {
          "decide list-vs-string by the presence of a comma nor split rendered text on commas (4 sites violate this today: recorded known findings "
          "with witnesses); B3 the getters obtain the filter through getfilter, which unwraps a disabled filter. Equality of supplied and read-back "
          "values for all definitions is NOT decided.",
-    technique="exhaustiveness cross-check builder vs reader (AST) + lint for lossy re-parsing transformers on the read-back path",
+    technique="exhaustiveness cross-check builder vs reader (AST) + finite-domain interpretation of get_filter_conditions over stand-in condition trees (negation folding and scope, no raise) + lint for lossy re-parsing transformers on the read-back path",
     ref="4/C19"),
 }
 NA = {}
